@@ -9,12 +9,18 @@ TEXT = {
          'DESIGN.md section 3 C03', 'TLA+ spec Req.tla + TLC exhaustive + TLC trace validation with state snapshots'),
  'C04': ('Same specification; the properties are NoDeadDispatch (nothing handed to a pipe once answered / cancelled / closed), retries-disabled-never-resends, one pipe per transmission, and on traces: every transmission must be explained by the first send, a loss of the carrying pipe or a resend timer armed exactly one retry interval earlier (exact virtual time, never sooner, and - through the quiescence lines - never later), with byte-identical digests; scenarios are a fault enumeration (drop / new connection / slow peer / cancel / close / time just before and at the retry instant injected at every prefix of a base scenario) plus seeded random ones.',
          'DESIGN.md section 3 C04', 'TLA+ spec Req.tla + TLC exhaustive + fault enumeration on the real code + TLC trace validation with exact virtual time'),
+ 'C05': ('TLC explores every interleaving of requests from 2 connections (routing headers of depth 1..3 over a small word alphabet, over-TTL and garbled ones), Recv / Send on 2 contexts by 2 threads, per-pipe queues of length 0..2, connection loss and close at every point on spec/RepLike.tla (REP and RESPONDENT variants) and checks ReplyRoute (every reply queued, in the sender\'s hand or transmitted sits on the connection its request arrived on, with exactly that routing header, produced by the context that took it), HoldsLastTaken, at-most-once answering and nothing-invented; the real REP and RESPONDENT sockets are driven in a synctest bubble with the harness as REQ / SURVEYOR peers and devices (chosen header depths and contents incl. equal headers on different connections); each recorded trace (pipe and exact header words of every transmitted reply, API results, snapshots of every context\'s backtrace bytes and pipe) must be a behaviour of RepLike.tla.',
+         'DESIGN.md section 3 C05', 'TLA+ spec RepLike.tla + TLC exhaustive + TLC trace validation with state snapshots'),
+ 'C09': ('The seven hop-count receive loops are transcribed statement by statement into spec/Hops.tla and TLC evaluates, for every TTL (quick: 8 values incl. 1, 8, 254, 255; thorough: all of 1..255), every position of the terminating word 0..TTL+2 and the interesting numbers of available words (resp. every hop byte), that the transcription delivers exactly when the hop count is within the limit (PAIR1: one more), moves exactly the routing header, and never delivers garbage; the same grid is then injected into the eight real receivers (REP, XREP, RESPONDENT, XRESPONDENT, PAIR1, XPAIR1, STAR, XSTAR) through the virtual transport and every observed outcome (delivered or not, header length handed up, hop byte written) must equal what the transcription computes; the TTL option must accept exactly 1..255 and default to 8.',
+         'DESIGN.md section 3 C09', 'TLA+ transcription Hops.tla evaluated exhaustively by TLC + TLC-validated injection grid on the real receivers'),
  'C13': ('TLC explores every interleaving of addPipe / pipe.Close / remPipe / hooks / protocol verdicts / socket close of spec/Core.tla for 2-3 connections (exhaustive within the cfg constants) and checks the hook language, protocol-told-once-each and id-held-until-Detached-returned invariants; the real internal/core is then driven through scripted and seeded scenarios (hook-side closes in Attaching/Attached, protocol refusals, peer drops incl. during proto.AddPipe, listener and dialer sides, socket close) in a synctest bubble and every recorded trace (hook events with the id and the allocator state, what the protocol was told, snapshots of ids in use / pipes listed at each quiescence) must be a behaviour of Core.tla on which those invariants hold.',
          'DESIGN.md section 3 C13', 'TLA+ spec Core.tla + TLC exhaustive + TLC trace validation of synctest-recorded executions'),
  'C14': ('TLC checks spacing, growth bounds, reset, retry-pending and no-attempt-after-close on spec/Core.tla over all fault sequences (refused / rejected / established-then-dropped / close at any phase) for asynchronous and synchronous dialing, with and without a maximum; the real dialer is driven in virtual time (failure storms that reach the cap, drops after success, options set on the dialer or on the socket) and every dial attempt must happen at exactly the virtual instant the specification allows, with the snapshot of reconnTime bound to the random back-off factor and checked against [1.1,1.5] and the cap.',
          'DESIGN.md section 3 C14', 'TLA+ spec Core.tla + TLC exhaustive + TLC trace validation with exact virtual timestamps'),
 }
 NOTES = {
+ 'C05': 'trusted: TLC, synctest, virtual transport/recorder, the REP/RESPONDENT snapshot accessors; raw XREP/XRESPONDENT routing and device chains are covered by the raw-socket checks, not here',
+ 'C09': 'trusted: TLC, the virtual transport; the transcription is bound to the code by the injection grid (a divergence of code and transcription is a rejected trace, a wrong transcription that matches wrong code is a false HopExact assumption in TLC); device chains end to end are exercised by the topology checks',
  'C03': 'trusted: TLC, synctest, virtual transport/recorder, the REQ snapshot accessor; bounds: 2 contexts, 2 threads, 2 pipes, 2-3 requests in the exhaustive runs; the conformance side is bounded by the scenarios replayed',
  'C04': 'trusted: as C03; liveness ("completes as soon as any peer answers") is decided on traces through quiescence lines, not by a TLC liveness check',
  'C13': 'trusted: TLC, synctest, the virtual transport/recorder, the read-only verif accessors; internal goroutine interleavings are exhaustive only on the specification, on the code they are those the environment schedule produces',
